@@ -11,9 +11,9 @@ CONSTANTS
   RetryCount = 2
   MaxCrash = 1
   AllowWindow = FALSE
-  StartStates = {"empty", "data+ownsnap"}
-  OtherAtStart = {FALSE}
-  OnlyOnce = FALSE
+  StartStates = {"empty", "data", "ownsnap", "data+ownsnap"}
+  OtherAtStart = {TRUE, FALSE}
+  OnlyOnce = TRUE
 SPECIFICATION Spec
 INVARIANTS TypeOK NoLocalLoss PublishedWhenIdle ReadyMeansLoaded ReadyMeansPublished ExitOnlyWhenDone
 PROPERTIES CommittedOnlyAfterStore LSNeverBackwards NoEchoUpload NoUploadBeforeOwnMerged BucketMonotone ReadyStable
